@@ -32,7 +32,14 @@ EXPLANATION = (
 TECHNIQUE = "static analysis: reader-shape extraction by abstract interpretation on probe tables, exhaustive lint of the embedded tables and data files"
 
 CORDERO = ("1    H    0.31    5    129\n2    He    0.28\n6    Csp3    0.76    1    10000\n-    Csp2    0.73    2    10000\n"
-           "-    Csp    0.69    1    171\n26    Fel.s.    1.32    3    336\n-     Feh.s.    1.52    6    1540\n27    Col.s.    1.26    3    5733")
+           "-    Csp    0.69    1    171\n20    Ca    1.76    10    347\n26    Fel.s.    1.32    3    336\n-     Feh.s.    1.52    6    1540\n27    Col.s.    1.26    3    5733")
+# the same radii in the layout of the package's second table (Cordero column rC with the uncertainty in brackets, Pyykko's
+# single/double/triple bond radii, '#' lines for hybridisation and spin states): whichever of the two tables a reader takes
+# the Cordero radii from, the probes say the same
+CORDERO_PYYKKO = ("1      H     0.31(5)     0.32\n2      He    0.28        0.46\n6      C     0.76(1)     0.75     0.67     0.60\n"
+                  "#sp3:        0.76(1)\n#sp2:        0.73(2)\n#sp:         0.69(1)\n20     Ca    1.76(10)    1.71     1.47     1.33\n"
+                  "26     Fe    1.32(3)     1.16     1.09     1.02\n#low spin:   1.32(3)\n#high spin:  1.52(6)\n"
+                  "27     Co    1.26(3)     1.11     1.03     0.96\n#low spin:   1.26(3)\n#high spin:  1.50(7)")
 LINES = "Cu  1.5418  1.3922\nAg  0.5608  0.4970"
 CFML = '''
        ! comment line
@@ -87,7 +94,12 @@ def fresh(ctx, **symconst):
 # ------------------------------------------------------------------------------- covalent radius
 def _radius(ctx, F):
     site = fsite(ctx, "covalent_radius.init")
-    w = fresh(ctx, covalent_radius__Cordero=CORDERO)
+    # (a probe for each of the two tables the package defines; a package that keeps only one of them is read from that one)
+    extra_ = {f"covalent_radius__{nm_}": pr_ for nm_, pr_ in (("Cordero", CORDERO), ("CorderoPyykko", CORDERO_PYYKKO))
+              if ctx.src.resolve("covalent_radius", nm_) is not None}
+    if not extra_:
+        raise AnalysisError("covalent_radius defines neither Cordero nor CorderoPyykko: no table for the probes to stand for")
+    w = fresh(ctx, **extra_)
     I, T = w.I, w.table
     rr = raises(lambda: I.call(I.global_name("covalent_radius", "init"), [T], {}))
     if rr:
@@ -96,7 +108,8 @@ def _radius(ctx, F):
     el = lambda s: I.getattr(T, s)
     for sym, r, dr, why in (("H", "0.31", "0.05", "five-field row"), ("He", "0.28", "0", "three-field row: uncertainty 0"),
                             ("C", "0.76", "0.01", "first hybridisation row; the '-' rows are skipped"),
-                            ("Fe", "1.32", "0.03", "first spin state; the '-' row is skipped"), ("Co", "1.26", "0.03", "row after a skipped one")):
+                            ("Fe", "1.32", "0.03", "first spin state; the '-' row is skipped"), ("Co", "1.26", "0.03", "row after a skipped one"),
+                            ("Ca", "1.76", "0.10", "an uncertainty of two digits")):
         ctx.check(close(fr(I.getattr(el(sym), "covalent_radius")), float(r)), "R1", f"radius of {sym} is column 2 of its row ({why})",
                   f"covalent_radius = {I.getattr(el(sym), 'covalent_radius')}, expected {r}", site)
         ctx.check(close(fr(I.getattr(el(sym), "covalent_radius_uncertainty")), float(dr)), "R1",
